@@ -218,21 +218,72 @@ def check_raw_layout(prog, rep):
                 called.append(call.args[0])
         I.call_hooks.append(hook)
         I.K_ret = 1
+        # the converted code is what lands in the result - nothing is done to it afterwards (no re-classification of
+        # "unassigned" codes, no masking): the conversion is replaced by one outcome per variant / a fresh number, and
+        # the code field of the result must be that very outcome
+        conv_out = []
+
+        def conv_model(I_, s_, call):
+            dt = call.dest_ty
+            at = call.arg_tys[0] if call.arg_tys else None
+            is_mc = lambda t_: t_ is not None and t_[0] == "adt" and t_[1] == "header::MessageClass"
+            is_u8 = lambda t_: t_ is not None and t_[0] == "int" and t_[1] == 8
+            if not (is_mc(dt) and is_u8(at) or is_u8(dt) and is_mc(at)):
+                return None
+            if is_mc(dt):
+                outs = []
+                full = I_.mat(s_, dt, "conv")
+                if not isinstance(full, EnumV):
+                    return None
+                for vi in sorted(full.variants):
+                    s2 = s_.copy()
+                    v = EnumV(full.path, {vi: full.variants[vi]}, full.ty)
+                    s2.ghost[("inj", "conv:%d" % vi)] = True
+                    conv_out.append(v)
+                    outs.append((s2, v))
+                return outs
+            v = I_.fresh_int(s_, "conv", (8, False), 0, 255)
+            conv_out.append(v)
+            return [(s_, v)]
+        if cb is not None:
+            I.extra_models[cb["path"]] = conv_model
+            I.extra_models["<T as core::convert::Into<U>>::into"] = conv_model
+            I.no_join_bodies.add(b["id"])
         I, res = run(prog, b, args=[a0], st=st, I=I)
-        ok = bool(res) and len(called) == 1 and called[0] == fs[src_names.index("code")]
+        ok = bool(res) and len(called) >= 1 and all(c == fs[src_names.index("code")] for c in called)
+
+        def refines(a, ref):
+            if isinstance(a, EnumV) and isinstance(ref, EnumV):
+                return set(a.variants) <= set(ref.variants) and all(refines(a.variants[k], ref.variants[k]) for k in a.variants)
+            if isinstance(a, StructV) and isinstance(ref, StructV):
+                return len(a.fields) == len(ref.fields) and all(refines(x, y) for x, y in zip(a.fields, ref.fields))
+            if isinstance(a, IntV) and isinstance(ref, IntV):
+                return a.aff == ref.aff
+            return a == ref
         for s, rv in res:
             dn = [f["name"] for f in prog.adts["header::HeaderRaw" if nm == "to_raw" else "header::Header"]["variants"][0]["fields"]]
             if not isinstance(rv, StructV):
                 ok = False
                 continue
+            cv = rv.fields[dn.index("code")]
+            if nm == "from_raw":
+                marks = [k[1] for k in s.ghost if isinstance(k, tuple) and k[0] == "inj" and str(k[1]).startswith("conv:")]
+                want = [c for c in conv_out if isinstance(c, EnumV) and ["conv:%d" % k for k in c.variants] == marks]
+                if len(marks) != 1 or not want or not (isinstance(cv, EnumV) and any(refines(cv, w) for w in want)):
+                    ok = False
+            else:
+                if not (isinstance(cv, IntV) and any(isinstance(w, IntV) and cv.aff == w.aff for w in conv_out)):
+                    ok = False
             for fld in ("ver_type_tkl", "message_id"):
                 if rv.fields[dn.index(fld)] != fs[src_names.index(fld)]:
                     ok = False
-        rep.ob("C01.2", nm, ok, "Header::%s does not copy ver_type_tkl and message_id and convert the code through the code table" % nm,
+        rep.ob("C01.2", nm, ok, "Header::%s does not copy ver_type_tkl and message_id and hand on the code exactly as the code table converts it" % nm,
                {"file": b["span"]["f"], "line": b["span"]["l"], "fn": b["path"]})
 
 
 def check(env, rep, tier):
+    include(rep, env, tier, "c05", ("C05.1",), "C01.10", "'option values under their numbers': the number an option goes on the wire under (and comes back under) is the one "
+            "the CoapOption <-> u16 tables assign, and those are the registry's, one-to-one")
     include(rep, env, tier, "c02", ("C02.2", "C02.4"), "C01.8", "'parsing those bytes returns the same message': the decoder forms option numbers and values from the prescribed bytes")
     include(rep, env, tier, "c03", ("C03.5",), "C01.9", "'and decode back': the decoder rejects nothing the encoder can emit (every rejecting branch is justified)")
     configs = ["default"] if tier == "quick" else ["default", "nodefault", "udp"]
